@@ -386,7 +386,7 @@ func (c *catalogue) colContext(t *Table, col *Column) colCtx {
 		for _, p := range i.Parts {
 			if p.Col == col.Name {
 				x.plainIdx = append(x.plainIdx, i.Name)
-				x.prefixed = x.prefixed || p.Prefix != 0
+				x.prefixed = x.prefixed || p.Prefix != 0 || p.Ops != ""
 				x.special = x.special || i.Type != "" || i.Parser != ""
 			}
 		}
@@ -782,7 +782,7 @@ func (c *catalogue) indexEdits(t *Table) {
 				if !used[k] {
 					k := k
 					c.add("index.parts.append", n, iname, k, pb, func(m *Model) { at(m, iname).Parts = append(at(m, iname).Parts, Part{Col: k}) })
-					if idx.Parts[0].Col != "" && idx.Parts[0].Prefix == 0 {
+					if idx.Parts[0].Col != "" && idx.Parts[0].Prefix == 0 && idx.Parts[0].Ops == "" {
 						c.add("index.parts.replace", n, iname, k, pb, func(m *Model) { at(m, iname).Parts[0].Col = k })
 					}
 					break
@@ -809,6 +809,17 @@ func (c *catalogue) indexEdits(t *Table) {
 				c.add("index.parts.prefix", n, iname, fmt.Sprint(pi), pb, func(m *Model) { q := &at(m, iname).Parts[pi]; q.Prefix = 15 - q.Prefix })
 			case c.d == MySQL && plainType && t.Column(p.Col).Type.Class == CString && t.Column(p.Col).Type.Size >= 10:
 				c.add("index.parts.prefix.add", n, iname, fmt.Sprint(pi), pb, func(m *Model) { at(m, iname).Parts[pi].Prefix = 5 })
+			}
+			if c.d == Postgres && plainType && p.Col != "" && t.Column(p.Col).Type.Class == CString && t.Column(p.Col).Type.T != "character" {
+				// a non-default operator class appears / disappears (text_pattern_ops is never the default)
+				c.add("index.parts.ops", n, iname, fmt.Sprint(pi), pb, func(m *Model) {
+					q := &at(m, iname).Parts[pi]
+					if q.Ops == "" {
+						q.Ops = "text_pattern_ops"
+					} else {
+						q.Ops = ""
+					}
+				})
 			}
 			if c.d == Postgres && plainType {
 				c.add("index.parts.nulls", n, iname, fmt.Sprint(pi), pb, func(m *Model) {
@@ -838,7 +849,7 @@ func (c *catalogue) indexEdits(t *Table) {
 		ab := modIdx(n, iname, schema.ChangeAttr)
 		allPlainCols := true
 		for _, p := range idx.Parts {
-			allPlainCols = allPlainCols && p.Col != "" && !p.Desc && p.Prefix == 0 && p.NullsFirst == nil
+			allPlainCols = allPlainCols && p.Col != "" && !p.Desc && p.Prefix == 0 && p.NullsFirst == nil && p.Ops == ""
 		}
 		if c.d != SQLite && !idx.Unique && allPlainCols && idx.Where == "" && len(idx.Include) == 0 && idx.Parser == "" && idx.PagesPerRange == 0 &&
 			(c.d == MySQL || len(idx.Parts) == 1) {
